@@ -491,3 +491,68 @@ def _refute(ctx, f, nf, op, a, b):
         if strip_all(a)[0] == "const" and op in ("Ge", "Gt") and ib and ib[0] <= strip_all(a)[1]:
             return ("sat", txt, "check_crop_box:%s" % txt)
     return ("unk", txt)
+
+
+def unchecked_sites(rep, prog, rule):
+    rep.rule(rule, "every get_unchecked / get_unchecked_mut outside the SIMD kernel modules is one "
+             "of the sites another rule justifies (column slices of the cropped views, the "
+             "pretabulated nearest-neighbour column, static tables, the vendored ArrayChunks "
+             "guard); any other unchecked access is listed, and one whose index is truncated from "
+             "a floating-point value without a clamp against the length is a violation (rounding "
+             "can put an accumulated position exactly on the end: defect #5 of DESIGN §5)")
+    n = new = 0
+    for f in sorted(prog.fns.values(), key=lambda x: x.id):
+        if re.match(r"^(convolution|alpha)::\w+::(sse4|avx2|neon|wasm32|native)::", f.name) or \
+                f.file.startswith(("src/simd_utils", "src/neon_utils", "src/wasm32_utils")) or \
+                not f.file.startswith("src/"):
+            continue
+        sites = [c for c in f.calls() if "get_unchecked" in c.name and len(c.args) >= 2]
+        if not sites:
+            continue
+        sym = Sym(f)
+        for c in sites:
+            n += 1
+            recv = strip_all(sym.operand(c.args[0], (c.bb, "term")))
+            idx = sym.operand(c.args[1], (c.bb, "term"))
+            key = "%s|%s" % (f.name, fmt(idx)[:40])
+            covered = None
+            if recv[0] == "static":
+                covered = "static table (table-index rule)"
+            elif f.file.endswith("array_chunks.rs"):
+                covered = "vendored core::array::ArrayChunks guard"
+            elif f.file.endswith("typed_cropped_image.rs") or "iter_cropped_rows" in f.name:
+                covered = "column slice of a cropped view (view-rectangle rule)"
+            elif f.name.endswith("resample_nearest"):
+                covered = "pretabulated nearest-neighbour column (index-nearest rule)"
+            if covered:
+                rep.ok(rule, key, c.at, covered, nontrivial=False)
+                continue
+            new += 1
+            rep.touch(f)
+            # index derived from a float -> int truncation without a clamp?
+            parent = prog.fns.get(f.d.get("parent")) if f.kind == "closure" else None
+
+            def float_trunc(e, depth=0, clamped=False):
+                if not isinstance(e, tuple) or not e or depth > 30:
+                    return False
+                if e[0] in ("call", "callat"):
+                    nm = e[1] if e[0] == "call" else e[2]
+                    if nm in ("min", "clamp"):
+                        return False
+                if e[0] == "cast" and e[1] == "FloatToInt":
+                    return True
+                if e[0] == "local":
+                    return any(float_trunc(sym.rvalue(rv, bb, (bb, j)), depth + 1)
+                               for (bb, j, rv, w) in sym.defs.get(e[1], []))
+                return any(float_trunc(x, depth + 1) for x in e if isinstance(x, tuple))
+            if float_trunc(idx):
+                rep.bad(rule, key + "|float-index", c.at, "%s indexes %s unchecked with %s, which is "
+                        "truncated from a floating-point position and not clamped against the "
+                        "length: an accumulated position can land exactly on the end of the image "
+                        "(y += step reaches `height` for a sub-pixel crop flush with the border), "
+                        "so a whole row / pixel outside the buffer is read" % (
+                            f.name, fmt(recv)[:40], fmt(idx)[:80]))
+            else:
+                rep.unk(rule, key, c.at, "unchecked access %s[%s] is not covered by any rule" % (
+                    fmt(recv)[:40], fmt(idx)[:80]))
+    rep.floor(rule, "unchecked accesses outside the kernels", n, 6)
